@@ -57,6 +57,7 @@ pub fn op_kind(op: &Op) -> &'static str {
         Op::Rename { .. } => "Rename",
         Op::ConfigObject { .. } => "ConfigObject",
         Op::Pass => "Pass",
+        Op::FailFastNext => "FailFastNext",
         Op::Wait { .. } => "Wait",
         Op::Faults { .. } => "Faults",
     }
@@ -796,6 +797,7 @@ pub fn run_l1(scn: &C10Scenario, stats: &mut RunStats) -> Vec<Violation> {
     let mut pass_index = 0usize;
     let mut pending_faults: Vec<FaultRule> = Vec::new();
     let mut pending_renotify: Vec<String> = Vec::new();
+    let mut pending_fail_fast = false;
     let mut signature = 0u64;
     let mut last_outcome: Option<Outcome> = None;
     let mut total_outputs_seen = 0usize;
@@ -951,12 +953,20 @@ pub fn run_l1(scn: &C10Scenario, stats: &mut RunStats) -> Vec<Violation> {
                 opts.config = ConfigSource::Object(text.clone());
             }
             Op::Wait { .. } => {}
+            Op::FailFastNext => {
+                pending_fail_fast = true;
+            }
             Op::Faults { rules, renotify } => {
                 pending_faults = rules.clone();
                 pending_renotify = renotify.clone();
             }
             Op::Pass => {
-                let faulty_pass = !pending_faults.is_empty();
+                let fail_fast_pass = std::mem::take(&mut pending_fail_fast);
+                let saved_opts = opts.clone();
+                if fail_fast_pass {
+                    opts.fail_fast = true;
+                }
+                let faulty_pass = !pending_faults.is_empty() || fail_fast_pass;
                 let log_start = match &sim {
                     Some(fs) => {
                         fs.set_faults(std::mem::take(&mut pending_faults));
@@ -1049,6 +1059,7 @@ pub fn run_l1(scn: &C10Scenario, stats: &mut RunStats) -> Vec<Violation> {
                 }
                 pass_index += 1;
                 last_outcome = Some(outcome);
+                opts = saved_opts;
                 if faulty_pass {
                     // faults have stopped: the affected paths are reported again
                     for path in std::mem::take(&mut pending_renotify) {
@@ -1617,6 +1628,7 @@ impl Property for C10 {
                     Op::Rename { from, to } => format!("Rename {} -> {}", from, to),
                     Op::ConfigObject { text } => format!("ConfigObject {}", text),
                     Op::Pass => "Pass".to_owned(),
+                    Op::FailFastNext => "FailFastNext".to_owned(),
                     Op::Wait { ms } => format!("Wait {}ms", ms),
                     Op::Faults { rules, renotify } => format!("Faults {:?} renotify {:?}", rules, renotify),
                 }).collect::<Vec<_>>(),
